@@ -267,6 +267,8 @@ def c05(v, tier, seed):
     syms = writable_symbols(wd)
     pdu.validate_facts(v, wd, [{"e": "fact", "kind": "header_len", "view": "Can", "name": "AVTP_CAN_HEADER_LEN", "value": 16}] + syms, "C05")
     v.cov["writable_library_symbols"] = [x["name"] for x in syms]
+    # (0') a history compressed into prior contents: the field holds a neighbour (one bit / one carry away) of the value written next
+    gen_and_replay(v, wd, ex, bind, "C05", tier, rnd, "nearset", ALL_VIEWS, 0, False, props=["FrameOK", "OthersKept"], invs=["ReadBack"], readback=True)
     # (a) exhaustive ordered pairs of operations: commutation, idempotence, RecordView
     run_hist(v, wd, ex, bind, "C05", rnd, "record", small if q else ALL_VIEWS, 2, 2, [1] if q else [0, 1, 5], 1,
              ["RecordView", "ReadsLastWritten"], name="GenHist/pairs")
@@ -327,7 +329,8 @@ def c12(v, tier, seed):
         res0, _ = gen_and_replay(v, wd, ex, bind, "C12", tier, rnd, scn, LEGACY_VIEWS, nr if q else nr * 6, walk, readback=(scn == "set"))
         replay_configs(v, wd, bind, res0.emitted, "C12", tier, rnd, limit=15000 if q else None)
     # in-band error values (2^w - errno), near-valid prior contents: where a wrapper's error convention or short cut could differ from the current API
-    for scn in ("sentinel", "nearset", "nearinit"):
+    # ... and states in which the small fields hold meaningful numbers together (pairwise-covering: format codes, depths, counts)
+    for scn in ("sentinel", "nearset", "nearinit", "domain"):
         gen_and_replay(v, wd, ex, bind, "C12", tier, rnd, scn, LEGACY_VIEWS, 0, False, readback=(scn == "nearset"))
     traces(v, wd, ex, bind, "C12", rnd, 8000 if q else 800000, LEGACY_VIEWS, ("get", "set", "init"), nshards=4 if q else 16, name="legacy-vs-current")
     # the repository's own unit tests (which drive the deprecated API) recorded through an LD_PRELOAD interposer
@@ -523,6 +526,41 @@ def bo_cfg(size, branch, full16):
             % (size, branch, "TRUE" if full16 else "FALSE"))
 
 
+def bo_constant_calls(v, wd, vecs_by_branch, q):
+    """Generated translation units that call the helpers with constant arguments; results compared with the TLC transitions."""
+    import subprocess
+    n = 0
+    for branch, vecs in vecs_by_branch.items():
+        calls = []
+        for e in vecs:
+            x = from64([0] * (8 - e["size"]) + e["x"]); bits = 8 * e["size"]
+            spell = ["0x%x" % x, "%uu" % x if x < 2 ** 32 else "0x%xull" % x]
+            for t, lim in (("uint8_t", 8), ("uint16_t", 16), ("uint32_t", 32), ("uint64_t", 64)):
+                if x < 2 ** lim and lim <= bits: spell.append("(%s)0x%x" % (t, x))
+            for sp in spell:
+                calls.append((e, sp))
+        src = ['#include <stdio.h>', '#include <stdint.h>', '#include "avtp/Byteorder.h"', 'int main(void) {']
+        for i, (e, sp) in enumerate(calls):
+            src.append('  printf("%%d %%llx\\n", %d, (unsigned long long)Avtp_%s%d(%s));' % (i, e["fn"], 8 * e["size"], sp))
+        src += ['  return 0;', '}']
+        cfile = os.path.join(wd, "bo_const_%s.c" % branch); exe = cfile[:-2]
+        open(cfile, "w").write("\n".join(src) + "\n")
+        flags = ["-O1", "-w", "-std=gnu99", "-I" + os.path.join(REPO, "include")] + (["-U__BYTE_ORDER__", "-D__BYTE_ORDER__=__ORDER_BIG_ENDIAN__"] if branch == "BE" else [])
+        r = subprocess.run(["gcc"] + flags + [cfile, "-o", exe], capture_output=True, text=True)
+        if r.returncode != 0: raise CompileError("constant-argument calls do not compile: " + r.stderr[-1500:])
+        out = subprocess.run([exe], capture_output=True, text=True, timeout=120).stdout.split("\n")
+        for ln in out:
+            if not ln: continue
+            i, val = ln.split(); e, sp = calls[int(i)]
+            want = from64([0] * (8 - e["size"]) + e["val"])
+            if int(val, 16) != want:
+                v.violation("bo fn=%s%d branch=%s kind=constant-argument" % (e["fn"], 8 * e["size"], branch),
+                            "Avtp_%s%d(%s) with a compile-time constant argument returns 0x%s, specification 0x%x (%s-endian helper set)" % (
+                                e["fn"], 8 * e["size"], sp, val, want, "little" if branch == "LE" else "big"), {"vector": e, "spelling": sp, "observed": val})
+        n += len(calls)
+    return n
+
+
 @check("C13")
 def c13(v, tier, seed):
     import sys as _s
@@ -534,6 +572,7 @@ def c13(v, tier, seed):
     exs = {"LE": Executor(build_exec(wd, "O2"), wd), "BE": Executor(build_exec(wd, "be"), wd)}
     fns = ("CpuToBe", "BeToCpu", "CpuToLe", "LeToCpu", "Bswap")
     nrep = 0
+    const_vecs = {"LE": [], "BE": []}
     for branch in ("LE", "BE"):
         for size in (2, 4, 8):
             res = run_tlc("GenBo", bo_cfg(size, branch, size == 2 and (branch == "LE" or not q)), wd)
@@ -550,7 +589,13 @@ def c13(v, tier, seed):
                         {"vector": e, "observed": line})
             nrep += len(cmds)
             if res.emitted: v.sample({"tlc_transition": res.emitted[len(res.emitted) // 2]})
+            const_vecs[branch] += random.Random(seed + size).sample(res.emitted, min(len(res.emitted), 400 if q else 3000))
     v.cov["evaluations"] += nrep; v.cov["replayed_transitions"] = nrep
+    # the same transitions with the argument written as a compile-time constant (literal of the natural type, and cast to every
+    # narrower exact-width type it fits): a helper may be a macro or be folded by the compiler on that path, and C's integer
+    # promotions act on the argument expression there
+    nconst = bo_constant_calls(v, wd, const_vecs, q)
+    v.cov["evaluations"] += nconst; v.cov["constant_argument_calls"] = nconst
     # trace direction: random 16/32/64-bit values through both builds
     evs, cmds = {"LE": [], "BE": []}, {"LE": [], "BE": []}
     n = 12000 if q else 1200000
@@ -609,7 +654,7 @@ def c14(v, tier, seed):
     groups = [ALL_VIEWS[i::3] for i in range(3)] if q else [[x] for x in ALL_VIEWS]
     for scn in ("fields", "init", "can", "vss", "strarr"):
         for gi, g in enumerate(groups if scn in ("fields", "init") else [ALL_VIEWS[:1]]):
-            res = run_tlc("GenX", hostx.x_cfg(scn, g, "LE", "BE"), wd)
+            res = run_tlc("GenX", hostx.x_cfg(scn, g, "LE", "BE", bigcounts=(64, 300) if q else (64, 300, 512, 1024)), wd, timeout=3600)
             v.add_tlc("GenX/%s[%d]" % (scn, gi), res)
             if not res.ok: raise Infra("HostModel violates HostIndependence (%s):\n%s" % (scn, (res.violation or "")[-1500:]))
             vecs = res.emitted
@@ -789,14 +834,15 @@ def c16(v, tier, seed):
                 lines.append("D S %s get %s %d 0000000000000000 0" % (view, p, bind.fidx[view][field]))
                 evs[t].append({"e": "op", "buf": 7, "base": 0, "op": "get", "view": view, "field": field, "path": p, "val": v64(0), "id": "", "pre": shared})
             elif k < 0.30:    # VSS decode of a private message with thread-specific content
-                dt = rnd.choice([130, 132, 134, 137, 138, 128, 11, 2, 6, 10])
+                dt = rnd.choice([128, 129, 130, 131, 132, 133, 134, 135, 136, 137, 138, 139, 11, 2, 6, 10])
                 val = vss.rand_value(rnd, dt)
                 mode = rnd.choice((0, 1)); path = [rnd.randrange(256) for _ in range(rnd.choice((1, 4, 13)))] if mode == 0 else [1, 2, 3, 4]
                 pw, dw = vss.enc_ref(mode, path, dt, val)
                 lead = rnd.randrange(4)
                 msg = pdu.rand_bytes(rnd, lead) + vss.hdr_bytes(rnd, mode, dt) + pw + dw
-                lines.append("V %d 1 %d %d %s" % (dt, len(val), lead, hexs(msg)))
-                evs[t].append({"e": "vss", "op": "getdata", "arg": [], "n": 1, "base": lead, "pre": msg, "mode": mode, "dt": dt})
+                wd_ = 0 if (dt in (11,) or dt >= 128) and rnd.random() < 0.4 else 1       # length query (no destination) or full decode
+                lines.append("V %d %d %d %d %s" % (dt, wd_, len(val), lead, hexs(msg)))
+                evs[t].append({"e": "vss", "op": "getdata", "arg": [], "n": wd_, "base": lead, "pre": msg, "mode": mode, "dt": dt})
             else:
                 s_ = rnd.randrange(4); view = views[s_]
                 op = rnd.choice(("get", "set", "set", "init"))
@@ -826,6 +872,9 @@ def c16(v, tier, seed):
             v.violation("stress kind=hang", "the concurrent stress run did not finish within 900 s", {}); break
         if r.returncode != 0:
             v.violation("stress kind=crash", "the concurrent stress run died (exit %d): %s" % (r.returncode, r.stderr[-600:]), {}); break
+        mod = re.findall(r"##PDU-MODIFIED ([^\n]*)", r.stderr)
+        if mod:
+            v.violation("stress kind=foreign-pdu-modified", "read-only decode calls modified a message that was passed to an EARLIER call (state retained across calls): %s (%d messages)" % (mod[0], len(mod)), {"messages": mod[:20]})
         races = re.findall(r"WARNING: ThreadSanitizer: data race.*?(?=\n\n|\Z)", r.stderr, flags=re.S)
         for rc_ in races[:5]:
             loc = re.search(r"#\d+ (\w+) ([\w/\.\-]+):(\d+)", rc_)
@@ -852,7 +901,7 @@ def c16(v, tier, seed):
                     pe.append(dict(e, post=unhexs(tk[5]), ret=unhexs(tk[2]), rc=-int(tk[3]), out=unhexs(tk[4])))
                 else:
                     o = vss.parse(line)
-                    ve.append({"e": "vss", "op": "getdata", "arg": [], "n": 1, "base": e["base"], "pre": e["pre"], "post": unhexs(o["post"]),
+                    ve.append({"e": "vss", "op": "getdata", "arg": [], "n": e["n"], "base": e["base"], "pre": e["pre"], "post": unhexs(o["post"]),
                                "ret": 0, "len": int(o["len"]), "bytes": unhexs(o["data"]), "mode": e["mode"], "dt": e["dt"]})
             pdu_shards.append(pe); vss_shards.append(ve)
         pdu.validate_events(v, wd, pdu_shards, "C16", "thread-log-run%d" % run, independent=False,
